@@ -19,9 +19,18 @@ type Clause struct {
 	Line  int
 }
 
+// GhostUpdate is one ghost assignment g(args) := value.
+type GhostUpdate struct {
+	Name  string
+	Args  []*Expr
+	Value *Expr
+	Src   string
+}
+
 type LoopSpec struct {
 	Ordinal int
 	Over    string
+	Ghost   []*GhostUpdate // "ghostset g(args) := e" of the loop: run when the loop is first reached and whenever control leaves the body
 	Invs    []*Clause
 	Mods    []string
 	HasMods bool
@@ -272,6 +281,23 @@ func (s *Specs) loadContractFile(path, pkgPath string) error {
 				return err
 			}
 			c.Label = strings.TrimSpace(rest[:i])
+			if curLoop != nil {
+				lhs, err := parseClause(rest[:i], path, l.line)
+				if err != nil {
+					return err
+				}
+				gu := &GhostUpdate{Value: c.E, Src: rest}
+				switch lhs.E.Kind {
+				case "ident":
+					gu.Name = lhs.E.Name
+				case "call":
+					gu.Name, gu.Args = lhs.E.Name, lhs.E.Args
+				default:
+					return fmt.Errorf("%s:%d: ghostset NAME(args) := expr", path, l.line)
+				}
+				curLoop.Ghost = append(curLoop.Ghost, gu)
+				break
+			}
 			cur.GhostSet = append(cur.GhostSet, c)
 		case "nopanic":
 			cur.NoPanic = true
